@@ -1,0 +1,212 @@
+//go:build verif
+
+package value
+
+// Contracts for the deductive verifier in /verif (build tag "verif" only; this
+// file contains no declarations and is not part of any normal build).
+//
+// The spec functions below are written from the Readme ("Types", "Arrays and strings") and the
+// operator tables, not from the code: ints wrap, `/` truncates, mixed int/float arithmetic promotes
+// to float, nil operands are an error before anything else, every other pairing is a type error.
+//
+//@ mode bv
+//@ implicit [C05]
+//@ globalinv Nil.typ == nilT
+//@ globalinv ErrNil != nil && ErrType != nil && ErrZeroDiv != nil && ErrIndex != nil
+//@ globalinv ErrNil != ErrType && ErrNil != ErrZeroDiv && ErrNil != ErrIndex && ErrType != ErrZeroDiv && ErrType != ErrIndex && ErrZeroDiv != ErrIndex
+//
+// Representation invariant of a value.
+//@ pred valid(t Type) bool := 0 <= t.typ && t.typ <= functionT
+//@     && (t.typ == boolT ==> t.morph == 0 || t.morph == 1)
+//@     && (t.typ == stringT || t.typ == arrayT ==> t.ptr != nil)
+//@ typeinv Type valid
+//@ pred isNum(t Type) bool := t.typ == intT || t.typ == floatT
+//@ pred asFloat(t Type) float64 := ite(t.typ == intT, float64(t.i()), t.f())
+//@ pred anyNil(a Type, b Type) bool := a.typ == nilT || b.typ == nilT
+//@ pred isArithOp(op bytecode.OpCode) bool := op == bytecode.ADD || op == bytecode.SUB || op == bytecode.MUL || op == bytecode.DIV
+//@ pred isRelOp(op bytecode.OpCode) bool := op == bytecode.LT || op == bytecode.GT || op == bytecode.LE || op == bytecode.GE
+//@ pred intArith(op bytecode.OpCode, a int, b int) int := ite(op == bytecode.ADD, a + b, ite(op == bytecode.SUB, a - b, ite(op == bytecode.MUL, a * b, a / b)))
+//@ pred floatArith(op bytecode.OpCode, a float64, b float64) float64 := ite(op == bytecode.ADD, a + b, ite(op == bytecode.SUB, a - b, ite(op == bytecode.MUL, a * b, a / b)))
+//@ pred intRel(op bytecode.OpCode, a int, b int) bool := ite(op == bytecode.LT, a < b, ite(op == bytecode.GT, a > b, ite(op == bytecode.LE, a <= b, a >= b)))
+//@ pred floatRel(op bytecode.OpCode, a float64, b float64) bool := ite(op == bytecode.LT, a < b, ite(op == bytecode.GT, a > b, ite(op == bytecode.LE, a <= b, a >= b)))
+//@ pred isErr(v Type, err error, want error) bool := err == want && v.typ == nilT
+//@ pred isBool(v Type, err error, want bool) bool := err == nil && v.typ == boolT && v.morph == ite(want, uint64(1), uint64(0))
+//
+//@ func builtinArith[int] [C11,C05] pure
+//@   requires isArithOp(op)
+//@   requires[nonzero;C11,C05] op == bytecode.DIV ==> b != 0
+//@   ensures result == intArith(op, a, b)
+//@ func builtinArith[float64] [C11,C05] pure
+//@   requires isArithOp(op)
+//@   ensures fsame(result, floatArith(op, a, b))
+//@ func builtinRelational[int] [C11,C05] pure
+//@   requires isRelOp(op)
+//@   ensures result == intRel(op, a, b)
+//@ func builtinRelational[float64] [C11,C05] pure
+//@   requires isRelOp(op)
+//@   ensures result == floatRel(op, a, b)
+//
+//@ func (Type).Arith [C11,C05,C10]
+//@   requires valid(t) && valid(b) && isArithOp(op)
+//@   ensures[nil_first] anyNil(t, b) ==> isErr(result0, result1, ErrNil)
+//@   ensures[int_int]   t.typ == intT && b.typ == intT && !(op == bytecode.DIV && b.i() == 0) ==> result1 == nil && result0.typ == intT && result0.i() == intArith(op, t.i(), b.i())
+//@   ensures[zero_div]  t.typ == intT && b.typ == intT && op == bytecode.DIV && b.i() == 0 ==> isErr(result0, result1, ErrZeroDiv)
+//@   ensures[promote]   isNum(t) && isNum(b) && !(t.typ == intT && b.typ == intT) ==> result1 == nil && result0.typ == floatT && fsame(result0.f(), floatArith(op, asFloat(t), asFloat(b)))
+//@   ensures[concat_s]  t.typ == stringT && b.typ == stringT && op == bytecode.ADD ==> result1 == nil && result0.typ == stringT && result0.s() == t.s() + b.s()
+//@   ensures[concat_a]  t.typ == arrayT && b.typ == arrayT && op == bytecode.ADD ==> result1 == nil && result0.typ == arrayT && result0.ptr != nil
+//@       && len(result0.a()) == len(t.a()) + len(b.a())
+//@       && (forall i :: 0 <= i && i < len(t.a()) ==> result0.a()[i] == t.a()[i])
+//@       && (forall i :: 0 <= i && i < len(b.a()) ==> result0.a()[len(t.a()) + i] == b.a()[i])
+//@   ensures[concat_fresh;C10] t.typ == arrayT && b.typ == arrayT && op == bytecode.ADD ==> fresh(result0.a()) || len(result0.a()) == 0
+//@   ensures[type_error] !anyNil(t, b) && !(isNum(t) && isNum(b)) && !(op == bytecode.ADD && ((t.typ == stringT && b.typ == stringT) || (t.typ == arrayT && b.typ == arrayT))) ==> isErr(result0, result1, ErrType)
+//@   ensures[valid]     valid(result0)
+//
+//@ func (Type).Mod [C11,C05]
+//@   requires valid(t) && valid(b)
+//@   ensures[nil_first]  anyNil(t, b) ==> isErr(result0, result1, ErrNil)
+//@   ensures[int_int]    t.typ == intT && b.typ == intT && b.i() != 0 ==> result1 == nil && result0.typ == intT && result0.i() == t.i() % b.i()
+//@   ensures[zero_div]   t.typ == intT && b.typ == intT && b.i() == 0 ==> isErr(result0, result1, ErrZeroDiv)
+//@   ensures[type_error] !anyNil(t, b) && !(t.typ == intT && b.typ == intT) ==> isErr(result0, result1, ErrType)
+//
+//@ func (Type).Relational [C11,C05]
+//@   requires valid(t) && valid(b) && isRelOp(op)
+//@   ensures[nil_first]  anyNil(t, b) ==> isErr(result0, result1, ErrNil)
+//@   ensures[int_int]    t.typ == intT && b.typ == intT ==> isBool(result0, result1, intRel(op, t.i(), b.i()))
+//@   ensures[promote]    isNum(t) && isNum(b) && !(t.typ == intT && b.typ == intT) ==> isBool(result0, result1, floatRel(op, asFloat(t), asFloat(b)))
+//@   ensures[type_error] !anyNil(t, b) && !(isNum(t) && isNum(b)) ==> isErr(result0, result1, ErrType)
+//
+//@ func (Type).Logic [C11,C05]
+//@   requires valid(t) && valid(b) && (op == bytecode.AND || op == bytecode.OR)
+//@   ensures[nil_first]  anyNil(t, b) ==> isErr(result0, result1, ErrNil)
+//@   ensures[int_int]    t.typ == intT && b.typ == intT ==> result1 == nil && result0.typ == intT && result0.morph == ite(op == bytecode.AND, t.morph & b.morph, t.morph | b.morph)
+//@   ensures[bool_bool]  t.typ == boolT && b.typ == boolT ==> isBool(result0, result1, ite(op == bytecode.AND, t.morph == 1 && b.morph == 1, t.morph == 1 || b.morph == 1))
+//@   ensures[type_error] !anyNil(t, b) && !(t.typ == intT && b.typ == intT) && !(t.typ == boolT && b.typ == boolT) ==> isErr(result0, result1, ErrType)
+//
+// Shifts: the Readme only says "bitshift"; the oracle is Go's shift on the 64-bit pattern with an
+// unsigned count (count >= 64 gives 0; >> is logical). Never a host fault, whatever the count.
+//@ func (Type).Shift [C11,C05]
+//@   requires valid(t) && valid(b) && (op == bytecode.LSH || op == bytecode.RSH)
+//@   ensures[nil_first]  anyNil(t, b) ==> isErr(result0, result1, ErrNil)
+//@   ensures[int_int]    t.typ == intT && b.typ == intT ==> result1 == nil && result0.typ == intT && result0.morph == ite(op == bytecode.LSH, t.morph << b.morph, t.morph >> b.morph)
+//@   ensures[type_error] !anyNil(t, b) && !(t.typ == intT && b.typ == intT) ==> isErr(result0, result1, ErrType)
+//
+//@ func (Type).Flip [C11,C05]
+//@   requires valid(t)
+//@   ensures[nil]  t.typ == nilT ==> isErr(result0, result1, ErrNil)
+//@   ensures[int]  t.typ == intT ==> result1 == nil && result0.typ == intT && result0.morph == ^t.morph
+//@   ensures[type_error] t.typ != nilT && t.typ != intT ==> isErr(result0, result1, ErrType)
+//
+//@ func (Type).Not [C11,C05]
+//@   requires valid(t)
+//@   ensures[nil]  t.typ == nilT ==> isErr(result0, result1, ErrNil)
+//@   ensures[bool] t.typ == boolT ==> isBool(result0, result1, t.morph != 1)
+//@   ensures[type_error] t.typ != nilT && t.typ != boolT ==> isErr(result0, result1, ErrType)
+//
+//@ func (Type).Len [C11,C05]
+//@   requires valid(t)
+//@   ensures[nil]    t.typ == nilT ==> isErr(result0, result1, ErrNil)
+//@   ensures[string] t.typ == stringT ==> result1 == nil && result0.typ == intT && result0.i() == len(t.s())
+//@   ensures[array]  t.typ == arrayT ==> result1 == nil && result0.typ == intT && result0.i() == len(t.a())
+//@   ensures[type_error] t.typ != nilT && t.typ != stringT && t.typ != arrayT ==> isErr(result0, result1, ErrType)
+//
+// Index. idxErr: the first index operand (in order) that is not an int decides: nil -> nil error,
+// anything else -> type error. Then the indexed value must be a string or an array (else type
+// error), then the bounds of the Readme: 0 <= i < #s for s[i]; 0 <= i <= j <= #s for s[i:j].
+//@ pred ixNil(b []Type) bool := b[0].typ == nilT || (len(b) == 2 && b[0].typ == intT && b[1].typ == nilT)
+//@ pred ixAllInt(b []Type) bool := b[0].typ == intT && (len(b) == 2 ==> b[1].typ == intT)
+//@ pred inRange1(i int, n int) bool := 0 <= i && i < n
+//@ pred inRange2(i int, j int, n int) bool := 0 <= i && i <= j && j <= n
+//@ func (Type).Index [C11,C05,C10]
+//@   requires valid(t) && len(b) >= 1 && len(b) <= 2
+//@   requires[valid_ix] forall k :: 0 <= k && k < len(b) ==> valid(b[k])
+//@   ensures[ix_nil]     ixNil(b) ==> isErr(result0, result1, ErrNil)
+//@   ensures[ix_type]    !ixNil(b) && !ixAllInt(b) ==> isErr(result0, result1, ErrType)
+//@   ensures[not_indexable] ixAllInt(b) && t.typ != stringT && t.typ != arrayT ==> isErr(result0, result1, ErrType)
+//@   ensures[str_at]     ixAllInt(b) && t.typ == stringT && len(b) == 1 && inRange1(b[0].i(), len(t.s())) ==> result1 == nil && result0.typ == stringT && len(result0.s()) == 1 && strat(result0.s(), 0) == strat(t.s(), b[0].i())
+//@   ensures[str_at_oob] ixAllInt(b) && t.typ == stringT && len(b) == 1 && !inRange1(b[0].i(), len(t.s())) ==> isErr(result0, result1, ErrIndex)
+//@   ensures[str_slice]  ixAllInt(b) && t.typ == stringT && len(b) == 2 && inRange2(b[0].i(), b[1].i(), len(t.s())) ==> result1 == nil && result0.typ == stringT && result0.s() == t.s()[b[0].i():b[1].i()]
+//@   ensures[str_slice_oob] ixAllInt(b) && t.typ == stringT && len(b) == 2 && !inRange2(b[0].i(), b[1].i(), len(t.s())) ==> isErr(result0, result1, ErrIndex)
+//@   ensures[arr_at]     ixAllInt(b) && t.typ == arrayT && len(b) == 1 && inRange1(b[0].i(), len(t.a())) ==> result1 == nil && result0 == t.a()[b[0].i()]
+//@   ensures[arr_at_oob] ixAllInt(b) && t.typ == arrayT && len(b) == 1 && !inRange1(b[0].i(), len(t.a())) ==> isErr(result0, result1, ErrIndex)
+//@   ensures[arr_slice]  ixAllInt(b) && t.typ == arrayT && len(b) == 2 && inRange2(b[0].i(), b[1].i(), len(t.a())) ==> result1 == nil && result0.typ == arrayT && result0.ptr != nil
+//@       && len(result0.a()) == b[1].i() - b[0].i() && arr(result0.a()) == arr(t.a()) && off(result0.a()) == off(t.a()) + b[0].i()
+//@   ensures[arr_slice_oob] ixAllInt(b) && t.typ == arrayT && len(b) == 2 && !inRange2(b[0].i(), b[1].i(), len(t.a())) ==> isErr(result0, result1, ErrIndex)
+//@   loop 0 invariant[ix] -1 <= rangeindex && rangeindex < len(b) && len(b) >= 1 && len(b) <= 2
+//@       && (forall k :: 0 <= k && k <= rangeindex ==> b[k].typ == intT && iix[k] == b[k].i())
+//@   loop 0 decreases len(b) - rangeindex
+//
+// Equality (language ==): numbers compare by value after promotion, functions are never equal,
+// a nil operand is an error, values of different kinds are unequal. Arrays are compared element
+// by element (recursive, only the shallow facts are stated here).
+//@ pred weakScalar(a Type, b Type) bool := ite(a.typ == intT && b.typ == intT, a.i() == b.i(),
+//@     ite(isNum(a) && isNum(b), asFloat(a) == asFloat(b),
+//@     ite(a.typ == boolT && b.typ == boolT, (a.morph != 0) == (b.morph != 0),
+//@     ite(a.typ == stringT && b.typ == stringT, a.s() == b.s(), false))))
+//@ pred strictScalar(a Type, b Type) bool := ite(a.typ == intT && b.typ == intT, a.i() == b.i(),
+//@     ite(a.typ == floatT && b.typ == floatT, a.f() == b.f(),
+//@     ite(a.typ == boolT && b.typ == boolT, (a.morph != 0) == (b.morph != 0),
+//@     ite(a.typ == stringT && b.typ == stringT, a.s() == b.s(),
+//@     (a.typ == nilT && b.typ == nilT) || (a.typ == functionT && b.typ == functionT)))))
+//@ func (*Type).StrictEq [C11,C05]
+//@   requires t != nil && valid(*t) && valid(b)
+//@   loop 0 invariant[ri] -1 <= rangeindex && rangeindex < len(aVal)
+//@   ensures[scalar] !(t.typ == arrayT && b.typ == arrayT) ==> result == strictScalar(*t, b)
+//@   ensures[arr_len] t.typ == arrayT && b.typ == arrayT && len(t.a()) != len(b.a()) ==> !result
+//@ func (*Type).WeakEq [C11,C05]
+//@   requires t != nil && valid(*t) && valid(b)
+//@   ensures[nil]        !(t.typ == arrayT && b.typ == arrayT) && anyNil(*t, b) ==> result0 == false && result1 == ErrNil
+//@   ensures[scalar]     !anyNil(*t, b) && !(t.typ == arrayT && b.typ == arrayT) ==> result1 == nil && result0 == weakScalar(*t, b)
+//@   ensures[function]   t.typ == functionT && b.typ == functionT ==> result0 == false && result1 == nil
+//@   ensures[arr_len]    t.typ == arrayT && b.typ == arrayT && len(t.a()) != len(b.a()) ==> result0 == false && result1 == nil
+//@   ensures[no_error_true] result0 ==> result1 == nil
+//@   loop 0 invariant[ri] -1 <= rangeindex && rangeindex < len(aVal)
+//
+//@ func (Type).Eq [C11,C05]
+//@   requires valid(t) && valid(b) && (op == bytecode.EQ || op == bytecode.NE)
+//@   ensures[nil]      !(t.typ == arrayT && b.typ == arrayT) && anyNil(t, b) ==> isErr(result0, result1, ErrNil)
+//@   ensures[scalar]   !anyNil(t, b) && !(t.typ == arrayT && b.typ == arrayT) ==> isBool(result0, result1, ite(op == bytecode.NE, !weakScalar(t, b), weakScalar(t, b)))
+//@   ensures[shape]    result1 == nil ==> result0.typ == boolT && (result0.morph == 0 || result0.morph == 1)
+//
+// Function values: entry point, parameter count and local count survive the packing.
+//@ func NewFunction [C15]
+//@   callers[range;C15] 0 <= node && node < 4294967296 && 0 <= paramCnt && paramCnt < 65536 && 0 <= localCnt && localCnt < 65536
+//@   ensures[packed] result.typ == functionT && result.ptr == unsafe.Pointer(frame)
+//@       && result.morph == (uint64(paramCnt) & 0xffff) << 48 | (uint64(localCnt) & 0xffff) << 32 | (uint64(node) & 0xffffffff)
+//@ func (Type).ToFunction [C15]
+//@   ensures[not_function] t.typ != functionT ==> !result1
+//@   ensures[unpacked] t.typ == functionT ==> result1 && result0.Node == int(t.morph & 0xffffffff) && result0.ParamCnt == int(t.morph >> 48) && result0.LocalCnt == int((t.morph >> 32) & 0xffff) && unsafe.Pointer(result0.Frame) == t.ptr
+//@ lemma function_roundtrip [C15]
+//@   vars node int, paramCnt int, localCnt int
+//@   requires 0 <= node && node < 4294967296 && 0 <= paramCnt && paramCnt < 65536 && 0 <= localCnt && localCnt < 65536
+//@   ensures[fields] int(((uint64(paramCnt) & 0xffff) << 48 | (uint64(localCnt) & 0xffff) << 32 | (uint64(node) & 0xffffffff)) & 0xffffffff) == node
+//@       && int(((uint64(paramCnt) & 0xffff) << 48 | (uint64(localCnt) & 0xffff) << 32 | (uint64(node) & 0xffffffff)) >> 48) == paramCnt
+//@       && int((((uint64(paramCnt) & 0xffff) << 48 | (uint64(localCnt) & 0xffff) << 32 | (uint64(node) & 0xffffffff)) >> 32) & 0xffff) == localCnt
+//
+// ---- algebraic laws, over the spec functions only -------------------------------------------
+//@ lemma eq_symmetric [C11]
+//@   vars a Type, b Type
+//@   requires valid(a) && valid(b)
+//@   ensures[sym] weakScalar(a, b) == weakScalar(b, a)
+//@ lemma int_equals_its_float [C11]
+//@   vars n int, f float64
+//@   requires fsame(f, float64(n))
+//@   ensures[eq] weakScalar(NewInt(n), NewFloat(f)) && weakScalar(NewFloat(f), NewInt(n))
+//@ lemma relational_consistent [C11]
+//@   vars a Type, b Type
+//@   requires valid(a) && valid(b) && isNum(a) && isNum(b)
+//@   ensures[lt_gt] floatRel(bytecode.LT, asFloat(a), asFloat(b)) == floatRel(bytecode.GT, asFloat(b), asFloat(a))
+//@   ensures[le_ge] floatRel(bytecode.LE, asFloat(a), asFloat(b)) == floatRel(bytecode.GE, asFloat(b), asFloat(a))
+//@   ensures[le_is_lt_or_eq] floatRel(bytecode.LE, asFloat(a), asFloat(b)) == (floatRel(bytecode.LT, asFloat(a), asFloat(b)) || asFloat(a) == asFloat(b))
+//@   ensures[int_lt_gt] intRel(bytecode.LT, a.i(), b.i()) == intRel(bytecode.GT, b.i(), a.i()) && intRel(bytecode.LE, a.i(), b.i()) == intRel(bytecode.GE, b.i(), a.i())
+//@   ensures[int_le] intRel(bytecode.LE, a.i(), b.i()) == (intRel(bytecode.LT, a.i(), b.i()) || a.i() == b.i())
+//@ lemma string_split_concat [C11]
+//@   vars s string, i int, j int
+//@   requires 0 <= i && i <= j && j <= len(s)
+//@   ensures[slice_len] len(s[i:j]) == j - i
+//@   ensures[split]     s[0:i] + s[i:len(s)] == s
+//@ lemma concat_len [C11]
+//@   vars a string, b string
+//@   ensures len(a + b) == len(a) + len(b)
+//
+//@ canary func (Type).IsNil
+//@   ensures false
